@@ -16,7 +16,7 @@ from gen.program import gen_program
 from simplify import alpha
 
 ID = "C01"
-THEOREMS = ["chain_den", "chain_built", "backend_front_preserves", "chain_backend_front_partial"]
+THEOREMS = ["chain_backend", "backend_preserves", "den_to_denLz", "chain_den", "chain_built", "backend_front_preserves", "chain_backend_front_partial"]
 RULE = (
     "generated programs (gen/program.py): trees of 1-6 Select/Where/SelectMany calls with branching from shared parents "
     "and inner streams also asked for their value; lambdas as Python callables in a generated module file (captured module "
@@ -30,10 +30,12 @@ RULE = (
     ">= 2 operator calls or a nested operator; distinct = module text"
 )
 EXPLANATION = (
-    "Theorems: chain_den (for every chain, lambda bodies, world and dataset, the AST buildChain builds denotes the chain "
-    "run on the in-memory sequence), chain_built (the stream machinery builds exactly that AST; heap model of C11/C12), "
-    "backend_front_preserves / chain_backend_front_partial (still true after the method-form and aggregate passes; the "
-    "simplifier pass is C02's partial theorems plus the per-run oracle). Per run: every generated program is executed "
+    "Theorems: chain_backend (end to end: for every chain, lambda bodies, world and dataset, if the chain run on the "
+    "in-memory sequence gives `out`, then the AST built for the chain, after all three backend passes - toCalls, aggT, "
+    "checked simplifier - evaluates under deferred execution to `out`), from chain_den (the AST denotes the chain), "
+    "chain_built (the stream machinery builds exactly that AST; heap model of C11/C12), backend_front_preserves, "
+    "den_to_denLz (whenever the eager reading gives a value the deferred reading gives the same, complete, value) and "
+    "C02's simplifyCk_preserves. The simplifier pass is the checked model simpCk (see C02). Per run: every generated program is executed "
     "twice - on func_adl streams (the AST handed to the executor by value()) and directly by CPython on in-memory "
     "sequences; whenever the direct run succeeds, the received AST and the AST after the real backend passes must evaluate "
     "to the same value under the Lean reference semantics (compiled `ev`) and under CPython evaluation of the AST. "
